@@ -53,6 +53,9 @@ def errClassOf (kinds : List ErrKind) : String :=
 structure LoopOut where
   /-- number of events that do not satisfy `LegalEvent` in the state they were delivered in (canonical order run) -/
   illegal : Nat := 0
+  /-- the completeness theorems on this history: "n/a" (not legal / does not start with `start`), "partial" (legal,
+      starts with `start`, not every step completed), "complete" (all hypotheses of `quiescent_run_has_verdict` met) -/
+  completeness : String := "n/a"
   verdict : String
   detail : Json := .null
   actions : List Action := []
@@ -213,14 +216,38 @@ def countIllegal (c : Json) (errCap : Nat) (fns : Fns) : Nat := Id.run do
   let mut s := LoopState.init P
   let mut n := 0
   for e in events do
-    if !(legalEvent P s e) then n := n + 1
+    -- `legalEventB` (Arca/Model/LoopCheck.lean) is the decision procedure proved sound for `LegalEvent`
+    -- (`legalEventB_sound`); `legalEvent` additionally checks `EventReports`
+    if !(legalEvent P s e) || !(legalEventB P s e) then n := n + 1
     s := (react P fns sortedOrder s e).1
   return n
+
+/-- the conclusions of the completeness theorems (C01 / C03) on the canonical model run of a delivered history whose
+    events are all legal and which starts with `start`: (applicability class, violated conclusions) -/
+def checkCompleteness (c : Json) (errCap : Nat) (fns : Fns) : String × List String := Id.run do
+  let some P := decPrepared (getObj c "prepared") errCap | return ("n/a", [])
+  let events := (getArr c "events").map decEvent
+  match events with
+  | .start _ :: _ =>
+    let (s, acts) := run P fns sortedOrder events
+    let complete := quiescentHistory P events
+    return (if complete then "complete" else "partial", completenessViolations P s acts complete)
+  | _ => return ("n/a", [])
 
 /-- first the canonical processing order alone (cheap); the search over orders only when that does not explain the run -/
 def runLoopCase (c : Json) (errCap : Nat) (fns : Fns) : LoopOut :=
   let quick := runLoopCaseWith c errCap fns false
   let out := if quick.verdict == "diff" then runLoopCaseWith c errCap fns true else quick
-  if out.verdict == "ok" then { out with illegal := countIllegal c errCap fns } else out
+  if out.verdict == "ok" then
+    let illegal := countIllegal c errCap fns
+    if illegal == 0 then
+      let (cls, bad) := checkCompleteness c errCap fns
+      if bad.isEmpty then { out with illegal := 0, completeness := cls }
+      else
+        let d := Json.mkObj [("what", "completeness-theorem-contradicted"),
+          ("conclusions", .arr (bad.map Json.str).toArray), ("class", cls)]
+        { out with illegal := 0, completeness := cls, verdict := "diff", detail := d }
+    else { out with illegal := illegal }
+  else out
 
 end Arca.Driver
